@@ -497,6 +497,23 @@ func (r *runner) checkTick(e env, pre *kdb.DB, post *kdb.DB, g gate, slot uint64
 		r.violate("spec", "pointer-start", fmt.Sprintf("slot %d: stored pointer is %s, the request should start at %d but started at %d", slot, state, wantPtr, used.TxPointer), []string{line})
 		return false
 	}
+	// a slot tick ages the stored pointer; only a keys message moves it or makes it fresh again
+	if row != nil {
+		var after *kdb.TxPointerRow
+		for i := range post.TxPointer {
+			if post.TxPointer[i].Eon == g.eonE {
+				after = &post.TxPointer[i]
+			}
+		}
+		wantAge := row.Age
+		if row.Age.Valid && ageInc && g.eonK == g.eonE {
+			wantAge.Int64++
+		}
+		if after == nil || after.Value != row.Value || after.Age.Valid != wantAge.Valid || (wantAge.Valid && after.Age.Int64 != wantAge.Int64) {
+			r.violate("spec", "pointer-start", fmt.Sprintf("slot %d: the slot tick (no keys message in between) changed the stored pointer of eon %d from value=%d age=%v to %+v; it should only have aged to %v", slot, g.eonE, row.Value, row.Age, after, wantAge), []string{line})
+			return false
+		}
+	}
 	// which identities
 	qK, contigK := queueOf(pre, g.eonK)
 	minOK := true
